@@ -35,7 +35,7 @@ DELIVERABLES in {wt}/_out/ (create the directory):
   demo{l1}.py, demo{l2}.py     - a standalone script that exits 0 on the clean tree and exits non-zero (assert / sys.exit(1)) with the change applied,
                          showing the property violated through the public API; deterministic or failing in every run
   notes{l1}.md, notes{l2}.md   - what the change is, which clause it breaks, exactly what it needs to manifest
-Verify yourself: clean tree -> both demos exit 0; each diff applied alone -> the 198 tests still pass and its demo exits non-zero. Leave the
+Verify yourself: clean tree -> both demos exit 0; each diff applied alone -> the 198 tests still pass and its demo exits non-zero. Do NOT use `git stash` (the stash is shared between worktrees): save with `git diff > x.diff`, restore with `git checkout -- src`. Leave the
 worktree clean (git checkout -- src) with only _out/ untracked. Report briefly what each change is and what it needs.
 
 EARLIER CHANGES FOR THIS PROPERTY (do not repeat these mechanisms):
